@@ -55,7 +55,21 @@ REPLACEMENTS = [
     "@union\nuint8 a\nuint16 b\n@extent 64\n",
     "@deprecated\nuint64[<=9] z\n@sealed\n",
     "uint8 a\n@extent 48 * 8\n---\n@extent 40 * 8\n",
+    # not text at all (written as bytes)
+    b"\xff\xfe\x00garbage\n@sealed\n",
+    b"uint8 a # \xb0\n@sealed\n",
+    b"\x80\x81\x82",
 ]
+
+
+def _write_replacement(path: str, content: typing.Any) -> None:
+    if isinstance(content, bytes):
+        with open(path, "wb") as f:
+            f.write(content)
+    else:
+        with open(path, "w") as f:
+            f.write(content)
+
 
 # extra files for a lookup root: (relative file name under the root, text) - they collide with each other in every
 # cross-definition rule but are referenced by nobody
@@ -204,20 +218,17 @@ def check_isolation(case: typing.Any, ctx: Ctx) -> Info:
                 continue
             victims.append(i)
             rel = wsp.rel_path(ws, defs[i])
-            with open(os.path.join(d, rel), "w") as f:
-                f.write(REPLACEMENTS[case["replacements"][k % len(case["replacements"])] % len(REPLACEMENTS)])
+            _write_replacement(os.path.join(d, rel), REPLACEMENTS[case["replacements"][k % len(case["replacements"])] % len(REPLACEMENTS)])
             disturbed.append(rel)
         for k, rel in enumerate(twin_files):
             # the namesake of a self-referential / cyclic definition is not what the reference means: its text is as irrelevant as
             # that of any other unreferenced file
-            with open(os.path.join(d, rel), "w") as f:
-                f.write(REPLACEMENTS[case["replacements"][k % len(case["replacements"])] % len(REPLACEMENTS)])
+            _write_replacement(os.path.join(d, rel), REPLACEMENTS[case["replacements"][k % len(case["replacements"])] % len(REPLACEMENTS)])
             disturbed.append(rel)
         if pre_added:
             # one of the pre-existing unreferenced files changes its text
             rel0 = pre_added[case["pre_extra"].get("which", 0) % len(pre_added)]
-            with open(os.path.join(d, rel0), "w") as f:
-                f.write(REPLACEMENTS[case["replacements"][0] % len(REPLACEMENTS)])
+            _write_replacement(os.path.join(d, rel0), REPLACEMENTS[case["replacements"][0] % len(REPLACEMENTS)])
             disturbed.append(rel0)
         added = []
         if case["extra"] is not None and lookup_only_roots:
